@@ -3,6 +3,7 @@
 // Kernels: ObjectSetRevision::{new, create, next, number, this_update,
 // next_update}, KeyObjectSet::{requires_reissuance, next_update}.
 use super::*;
+#[allow(unused_imports)]
 use crate::config::verif_kani::{any_timing, stub_now, stub_rng, sym_now, t0};
 #[allow(unused_imports)]
 use rand::rng as rand_thread_rng;
